@@ -533,7 +533,27 @@ def _script(r, client, world, counter):
             # load / transform, solve, query, drop - again and again: results die, their memory is reused
             for _ in range(r.randint(2, 4)):
                 x = r.random()
-                if x < 0.4:
+                if x < 0.3:
+                    # parameter-sweep style: build a circuit, analyse it, let everything go, take the next variant
+                    base = r.choice(world["cirs"])
+                    fam = [c for c in world["cirs"] if c.rstrip("s") == base.rstrip("s")]
+                    seq = fam if len(fam) > 1 and r.random() < 0.7 else r.sample(world["cirs"], min(len(world["cirs"]), 2))
+                    if r.random() < 0.5:
+                        seq = list(reversed(seq))
+                    k = r.choice(["td", "fd", "fd", "cx", "transform"])
+                    extra = {"td": {"w_max": r.choice([0, 50.0, 400.0])}, "fd": {"w_max": r.choice([50.0, 400.0])},
+                             "cx": {"w": r.choice([0, 10.0, 100.0])}, "transform": {}}[k]
+                    for c2 in seq:
+                        h = add("cir.build", {"src": P(c2)})
+                        if k == "transform":
+                            hs = add("cir.transform", {"cir": h, "f": "transform", "w": P("wlist")})
+                        else:
+                            hs = add("cir." + k, dict({"cir": h}, **extra))
+                            add("csol.all", {"sol": hs})
+                        add("h.drop", {"x": hs})
+                        add("h.drop", {"x": h})
+                    continue
+                if x < 0.5:
                     h = add("ld.load_network", {"desc": P(r.choice(["desc0", "desc0s"]))})
                 elif x < 0.75:
                     c2 = r.choice(world["cirs"])
@@ -607,6 +627,26 @@ def _all_steps(steps):
             yield from _all_steps(n["steps"])
 
 
+QUERY_OPS = {"csol.all", "csol.query", "nsol.all", "nsol.query", "tdsol.fn", "ssm.all", "ssm.query"}
+
+
+def engine_consumed(step):
+    out = []
+
+    def walk(v):
+        if isinstance(v, dict):
+            if "h" in v and len(v) == 1:
+                out.append(v["h"])
+            else:
+                for x in v.values():
+                    walk(x)
+        elif isinstance(v, list):
+            for x in v:
+                walk(x)
+    walk(step.get("a", {}))
+    return out
+
+
 IO_OPS_R = {"ld.load", "ld.load_net_json", "cdl.load"}
 IO_OPS_W = {"ld.dump", "cdl.save"}
 
@@ -640,6 +680,24 @@ def _place_faults(r, steps, cfg):
         free = [s for s in cands if "fault" not in s and s["op"] != "fs.put"]
         if not free:
             return
+        # a user-supplied callable that a result object carries along (node mapper, solver) fails during a LATER
+        # query on that object: the producer passes a wrapped callable (in the history and in the reference alike)
+        byid = {x["id"]: x for x in _all_steps(steps)}
+        cons = []
+        for x in free:
+            if x["op"] in QUERY_OPS:
+                hs = [byid.get(h) for h in engine_consumed(x)]
+                if hs and hs[0] is not None and hs[0]["op"] in seam_ops_all() and hs[0].get("fault", {}).get("kind") != "seam-raise":
+                    cons.append((x, hs[0]))
+        # a failed query matters when the same object is queried again afterwards: those get three lots
+        order = {x["id"]: i for i, x in enumerate(_all_steps(steps))}
+        later = lambda x, prod: any(y is not x and order[y["id"]] > order[x["id"]] for y, p2 in cons if p2 is prod)
+        cons = [c for c in cons for _ in range(3 if later(*c) else 1)]
+        if cons and r.random() < 0.25:
+            x, prod = r.choice(cons)
+            prod["wrap"] = True
+            x["fault"] = {"kind": "cb-raise", "at": r.choice([0, 1, 1, 2, 3]), "exc": r.choice(["interrupt", "memory", "callback", "callback"])}
+            continue
         # balanced over op kinds: first a kind that occurs in this run, then one of its steps
         kinds = sorted({_kind_key(x) for x in free})
         kk = r.choice(kinds)
